@@ -36,9 +36,9 @@ PROPS = {
         "not_covered": ["absence of hangs inside numeric kernels", "wall-clock behaviour"],
     },
     "C07": {
-        "units": ["status", "solve"],
-        "scope": "narrow: the iteration budget is observed only by the MaxIterations test (verdict independent of max_iter while budget remains); MaxIterations reported only with iterations == max_iter",
-        "assumptions": [OPAQUE, TRAITS],
+        "units": ["status", "solve", "steplen"],
+        "scope": "narrow: tau, kappa stay positive and every accepted (combined) step has length in [0,1] (real arithmetic); the iteration budget is observed only by the MaxIterations test (verdict independent of max_iter while budget remains); MaxIterations reported only with iterations == max_iter",
+        "assumptions": [OPAQUE, TRAITS, "unit steplen uses the F-real model (machine arithmetic treated as mathematical); CompositeCone::step_length is assumed to return values in [0, alphamax]; 0 < max_step_fraction < 1"],
         "trusted_base": ["prelude/float_opaque.rs", "prelude/vecmath_assumed.rs"],
         "not_covered": ["s,z strictly inside K,K* (numeric)", "bit-reproducibility across runs (2-safety)"],
     },
@@ -95,5 +95,14 @@ PROPS = {
         "trusted_base": ["prelude/float_opaque.rs", "prelude/vecmath_assumed.rs"],
         "not_covered": ["reduce_cones / select_rows (iterator adaptors with closures: Kani bounded harnesses, thorough tier)", "capping of b in DefaultProblemData::new (scalarop closure)",
                         "that the reduced problem's solution equals the hand-reduced one (same data => C01 on the reduced data)"],
+    },
+    "C15": {
+        "units": ["steplen"],
+        "scope": "nonnegative cone: ratio test safe (z + a*dz >= 0 for all rows), bounded by alphamax and tight (alphamax or exactly -z_i/dz_i); zero cone returns alphamax; backtrack_search returns 0 or the first accepted trial alpha_init*step^k with the accepted point in the work vector; combined step keeps tau,kappa > 0",
+        "assumptions": ["F-real model: machine arithmetic treated as mathematical (admitted axioms; NaN/inf/rounding not modelled); minimum() is an attained lower bound; waxpby/axpby element-wise contracts assumed (vecmath)",
+                        "CompositeCone::step_length assumed to return values in [0, alphamax]",
+                        "backtrack_search: partial correctness (terminates only if step < 1; not enforced by settings validation, DESIGN O3)"],
+        "trusted_base": ["prelude/float_opaque.rs", "prelude/float_real_axioms.rs", "prelude/vecmath_assumed.rs"],
+        "not_covered": ["SOC / PSD root selection and tightness in floats", "exponential/power feasibility predicates (ln, powf)", "margins / unit shifts"],
     },
 }
